@@ -195,9 +195,10 @@ class Core(object):
         return any(n.ns == HTML and n.name in names for n in self.stack)
 
     def pop_until(self, *names):
+        anyns = "pop-until-ignores-namespace" in self.sw
         while self.stack:
             n = self.stack.pop()
-            if n.ns == HTML and n.name in names:
+            if (n.ns == HTML or anyns) and n.name in names:
                 return n
 
     def pop_until_node(self, node):
